@@ -1464,7 +1464,11 @@ func c04Plans(i int, r *rand.Rand, drain bool) c04Plan {
 }
 
 // c04RunAll runs the cases of one driver in parallel (each on its own Node) and emits them in index order.
-func c04RunAll(w *verifW, mk func(i int, r *rand.Rand) c04Plan) {
+func c04RunAll(w *verifW, mk func(i int, r *rand.Rand) c04Plan) { c04RunAllKey(w, nil, mk) }
+
+// c04RunAllKey: as c04RunAll; the canonical finding key of a case (JSON field "key") is the plan's Key,
+// or what classify says about the observation when the plan has none.
+func c04RunAllKey(w *verifW, classify func(o c04Obs) string, mk func(i int, r *rand.Rand) c04Plan) {
 	type job struct{ i int }
 	results := make([]*c04Result, w.N)
 	var wg sync.WaitGroup
@@ -1479,6 +1483,11 @@ func c04RunAll(w *verifW, mk func(i int, r *rand.Rand) c04Plan) {
 			defer wg.Done()
 			defer func() { <-sem }()
 			res := c04RunPlan(mk(i, w.Rand(i)), w.Rand(i+1<<20).Int63())
+			if k, _ := res.JS["key"].(string); k == "" && classify != nil {
+				if o, ok := res.JS["obs"].(c04Obs); ok {
+					res.JS["key"] = classify(o)
+				}
+			}
 			results[i] = &res
 		}(i)
 	}
